@@ -60,18 +60,29 @@ pub fn c09<E: DGlue>(ctx: &mut Ctx) {
     let pt_style: Option<String> = grab("serialize_all");
     let pt_prefix: String = grab("prefix").unwrap_or_default();
     let pt_ci = pt_all.contains("ascii_case_insensitive");
-    // name accepted by from_str
-    let d_parse = |j: usize| -> String {
-        let v = &spec.variants[j];
-        for p in &v.disc_passthrough {
-            if let Some(r) = p.strip_prefix("strum(serialize = \"").and_then(|r| r.strip_suffix("\")")) {
-                return r.to_string();
-            }
-        }
-        model::case(&v.ident, pt_style.as_deref())
+    // pass-through spellings of a variant (every #[strum_discriminants(strum(..))] attribute counts)
+    let pt_of = |j: usize, key: &str| -> Vec<String> {
+        let pat = format!("strum({} = \"", key);
+        spec.variants[j].disc_passthrough.iter().filter_map(|p| p.strip_prefix(pat.as_str()).and_then(|r| r.strip_suffix("\")")).map(|s| s.to_string())).collect()
     };
-    // name printed by Display / listed by VariantNames
-    let d_name = |j: usize| -> String { format!("{}{}", pt_prefix, d_parse(j)) };
+    // all names accepted by from_str
+    let d_parse_all = |j: usize| -> Vec<String> {
+        let mut v = pt_of(j, "serialize");
+        v.extend(pt_of(j, "to_string"));
+        if v.is_empty() {
+            v.push(model::case(&spec.variants[j].ident, pt_style.as_deref()));
+        }
+        v
+    };
+    let d_parse = |j: usize| -> String { d_parse_all(j)[0].clone() };
+    // name printed by Display / listed by VariantNames: to_string, else longest serialize, else cased ident
+    let d_name = |j: usize| -> String {
+        let base = pt_of(j, "to_string").into_iter().next().unwrap_or_else(|| {
+            let sers = pt_of(j, "serialize");
+            sers.iter().max_by_key(|s| s.len()).cloned().unwrap_or_else(|| model::case(&spec.variants[j].ident, pt_style.as_deref()))
+        });
+        format!("{}{}", pt_prefix, base)
+    };
     for i in 0..n {
         for k in 0..draws {
             let dv: Vec<u64> = (0..6).map(|j| vmodel::derive_seed(ctx.seed, "disc", i as u64 * 1000 + k, j)).collect();
@@ -141,11 +152,14 @@ pub fn c09<E: DGlue>(ctx: &mut Ctx) {
                 ctx.fail("disc:derive-Display", json!({"derive": "Display", "variant": j}), format!("{:?}", d_name(j)), format!("{:?}", s));
             }
         }
-        if let Some(r) = E::d_from_str(&d_parse(j)) {
-            ctx.eval();
-            ctx.class("derive:EnumString");
-            if r != Some(j) {
-                ctx.fail("disc:derive-EnumString", json!({"derive": "EnumString", "variant": j, "input": d_parse(j), "passthrough": opts.passthrough}), format!("Some({})", j), format!("{:?}", r));
+        if E::d_from_str("").is_some() {
+            for name in d_parse_all(j) {
+                let r = E::d_from_str(&name).unwrap();
+                ctx.eval();
+                ctx.class("derive:EnumString");
+                if r != Some(j) {
+                    ctx.fail("disc:derive-EnumString", json!({"derive": "EnumString", "variant": j, "input": name, "passthrough": opts.passthrough, "variant_passthrough": spec.variants[j].disc_passthrough}), format!("Some({})", j), format!("{:?}", r));
+                }
             }
             // a passed-through ascii_case_insensitive takes effect (and its absence too)
             let flipped = crate::inputs::flip(&d_parse(j), 0b1011);
